@@ -302,6 +302,83 @@ def _store_dataset():
     return ds
 
 
+class _ParkOnSleep:
+    """pynetdicom.association.time stand-in: the association reactor is RUNNING when the SCU call starts; it reaches its
+    checkpoint - and parks - only while the caller sleeps in its wait loop."""
+
+    def __init__(self, assoc):
+        self.assoc, self.n = assoc, 0
+
+    def sleep(self, s):
+        self.n += 1
+        self.assoc._is_paused = True
+
+    def __getattr__(self, n):
+        import time
+        return getattr(time, n)
+
+
+class _SendWatch(RecordingDimse):
+    def __init__(self, assoc):
+        RecordingDimse.__init__(self, [])
+        self._assoc = assoc
+        self.parked_at_send = []
+
+    def send_msg(self, primitive, context_id):
+        self.parked_at_send.append(self._assoc._is_paused is True and not self._assoc._reactor_checkpoint.is_set())
+        RecordingDimse.send_msg(self, primitive, context_id)
+
+
+_QR_FIND, _QR_GET, _QR_MOVE = ("1.2.840.10008.5.1.4.1.2.1.1", "1.2.840.10008.5.1.4.1.2.1.3", "1.2.840.10008.5.1.4.1.2.1.2")
+ALL_SCU_OPS = list(SINGLE_OPS) + ["find", "get", "move"]
+
+
+@harness(
+    "C24",
+    timeout=(90, 300),
+    shards=[dict(op=o) for o in ALL_SCU_OPS],
+    functions=["association:Association.send_c_echo/send_c_store/send_c_find/send_c_get/send_c_move/send_n_*"],
+    bounds="every SCU entry point (one shard each), called while the association reactor is still running (it parks only "
+           "during the caller's wait loop): the request is handed to the DIMSE provider only AFTER the reactor is parked at "
+           "its cleared checkpoint - otherwise the running reactor could take the peer's first response off the queue and "
+           "the caller would lose it",
+    stubs=_COMMON_STUBS + ["pynetdicom.association.time replaced: sleep() lets the reactor reach its checkpoint",
+                           "pynetdicom.association.encode replaced (returns two bytes)"],
+    outside="how the reactor treats a message it takes (C19/C20)",
+)
+def request_after_reactor_parked(prio: int) -> bool:
+    """
+    pre: 0 <= prio <= 2
+    post: _ == True
+    """
+    op = shard("op", "echo")
+    with untraced():
+        assoc = make_assoc(MODE_REQUESTOR)
+        assoc._accepted_cx = {1: mk_cx(VERIF_UID, TS, 1), 3: mk_cx(CT, TS, 3), 5: mk_cx(FILM_SESSION, TS, 5),
+                              7: mk_cx(_QR_FIND, TS, 7), 9: mk_cx(_QR_GET, TS, 9), 11: mk_cx(_QR_MOVE, TS, 11)}
+        ds = _store_dataset()
+        ident = Dataset()
+        ident.QueryRetrieveLevel = "PATIENT"
+    assoc._is_paused = False                 # the reactor is running
+    assoc.dimse = _SendWatch(assoc)
+    saved = (am.time, am.encode)
+    am.time = _ParkOnSleep(assoc)
+    am.encode = lambda d, *a, **k: b"\x00\x00"
+    try:
+        if op == "find":
+            list(assoc.send_c_find(ident, _QR_FIND, priority=prio))
+        elif op == "get":
+            list(assoc.send_c_get(ident, _QR_GET, priority=prio))
+        elif op == "move":
+            list(assoc.send_c_move(ident, "DEST", _QR_MOVE, priority=prio))
+        else:
+            _single_invoke(assoc, op, ds)
+    finally:
+        am.time, am.encode = saved
+    w = assoc.dimse.parked_at_send
+    return len(w) == 1 and w[0] is True and assoc._reactor_checkpoint.is_set()
+
+
 @harness(
     "C24",
     timeout=(90, 300),
